@@ -85,7 +85,16 @@ func runC14(cx *Ctx, r *Report) {
 			// a class update carries the restriction flags of the stored class over unchanged:
 			// a flag that is dropped from the rebuilt metadata reads as false afterwards and
 			// the restriction silently stops applying to the class's tokens
-			if st := findSub(ev.Args[len(ev.Args)-1], func(t *Term) bool { return t.Op == "struct" && t.Name == "DenomMetadata" }); st != nil {
+			st := findSub(ev.Args[len(ev.Args)-1], func(t *Term) bool { return t.Op == "struct" && t.Name == "DenomMetadata" })
+			if st == nil {
+				// the loaded class is updated in place: class.Data = pack(&DenomMetadata{…})
+				for _, dt := range classDataStores(w, ev) {
+					if x := findSub(dt, func(t *Term) bool { return t.Op == "struct" && t.Name == "DenomMetadata" }); x != nil {
+						st = x
+					}
+				}
+			}
+			if st != nil {
 				got := map[string]string{}
 				for i := 0; i+1 < len(st.Args); i += 2 {
 					got[st.Args[i].Name] = st.Args[i+1].LooseString()
@@ -184,4 +193,35 @@ func runC14(cx *Ctx, r *Report) {
 	r.requireCount("owner-guard", 4)
 	r.requireCount("who-may-call", 6)
 	r.requireCount("id-immutable", 2)
+}
+
+// classDataStores: the values stored into field Data of the struct local that is passed
+// (as a whole) to the class mutator at ev, by stores that can reach the call.
+func classDataStores(w *Walker, ev *Event) []*Term {
+	ci, ok := ev.Site.(ssa.CallInstruction)
+	if !ok || len(ci.Common().Args) == 0 {
+		return nil
+	}
+	arg := ci.Common().Args[len(ci.Common().Args)-1]
+	u, ok := arg.(*ssa.UnOp)
+	if !ok {
+		return nil
+	}
+	a, ok := u.X.(*ssa.Alloc)
+	if !ok || a.Referrers() == nil {
+		return nil
+	}
+	var out []*Term
+	for _, r := range *a.Referrers() {
+		fa, ok := r.(*ssa.FieldAddr)
+		if !ok || fieldNameShort(fa.X.Type(), fa.Field) != "Data" || fa.Referrers() == nil {
+			continue
+		}
+		for _, r2 := range *fa.Referrers() {
+			if st, ok := r2.(*ssa.Store); ok && st.Addr == fa && instrReaches(st, ev.Site) {
+				out = append(out, w.ts.Of(st.Val, ev.Fr))
+			}
+		}
+	}
+	return out
 }
